@@ -26,7 +26,7 @@ autobins = false
 [workspace]
 
 [dependencies]
-konst = { path = "/repo/konst", features = [%(features)s] }
+konst = { path = "%(repolink)s/konst", features = [%(features)s] }
 
 [profile.dev]
 opt-level = 0
@@ -54,6 +54,7 @@ def write_if_changed(path, text):
 def make_crate(name, bins, features=("rust_1_83", "alloc")):
     """bins: dict bin_name -> Rust source (each a full program; `mod common;` available via
     #[path]). Returns crate dir."""
+    kv.link_repo()
     d = os.path.join(GEN, name)
     os.makedirs(os.path.join(d, "src", "bin"), exist_ok=True)
     os.makedirs(os.path.join(d, ".cargo"), exist_ok=True)
@@ -72,7 +73,7 @@ def make_crate(name, bins, features=("rust_1_83", "alloc")):
         if f not in keep:
             os.remove(os.path.join(d, "src", "bin", f))
     feats = ", ".join('"%s"' % f for f in features)
-    write_if_changed(os.path.join(d, "Cargo.toml"), CARGO_TOML % {"name": name, "features": feats, "bins": "\n".join(sect)})
+    write_if_changed(os.path.join(d, "Cargo.toml"), CARGO_TOML % {"name": name, "features": feats, "bins": "\n".join(sect), "repolink": kv.REPO_LINK})
     return d
 
 
@@ -86,6 +87,7 @@ use common::*;
 def build(name, release=False, timeout=2400):
     d = os.path.join(GEN, name)
     with kv.Lock("cargo.lock"):
+        kv.invalidate_if_repo_changed()
         cmd = ["cargo", "build", "--offline", "-q", "--bins"] + (["--release"] if release else [])
         p = kv.run(cmd, cwd=d, timeout=timeout)
     if p.returncode != 0:
@@ -108,6 +110,7 @@ def check_bins(name, timeout=2400):
     error messages (empty = compiles), error string)."""
     d = os.path.join(GEN, name)
     with kv.Lock("cargo.lock"):
+        kv.invalidate_if_repo_changed()
         p = kv.run(["cargo", "check", "--offline", "--keep-going", "--bins", "--message-format=json"], cwd=d, timeout=timeout)
     res = {}
     seen_any = False
